@@ -368,6 +368,8 @@ class Gen:
                 spec += ':' + self.rng.choice(self.ANSI_PARTS)
         else:
             spec = ''.join(self.rng.choice('x:+-<^>50 ') for _ in range(self.rng.randint(1, 5)))
+            while sum(c.isdigit() for c in spec) > 2:       # keep widths small (a 5-digit width is a 50 000 character text)
+                spec = spec.replace('5', '', 1) if '5' in spec else spec.replace('0', '', 1)
         self.do({'op': 'fmt', 'r': r, 'spec': spec, 'how': self.rng.choice(['format', 'format', 'to_str', 'fstr'])})
 
     def g_strip(self):
